@@ -16,6 +16,10 @@ def run(tier, seed):
     r.add_cases(cases, "native")
     r.notes += notes
     r.observe("native", core.sum_dicts(sums))
+    # simulation part: the unmodified patch_amd64.rs against a simulated memory, incl. trampolines beyond
+    # +/-2 GiB (Windows-style 12-byte entry) and fake displacements over the whole 64-bit range
+    from props import _sim
+    _sim.run_sim(r, "c01sim", seed, tier, ["linux"], ["dev", "release"], nshards=5, crosscheck=False)
     r.assumptions = [
         "x86-64 Linux branch of the library only; the Windows-style 12-byte entry and other OS branches are judged in simulation (sim engine)",
         "the kernel honours a hinted mmap when the hinted page is free (needed to pin the trampoline)",
@@ -26,6 +30,13 @@ def run(tier, seed):
 
 def replay(path):
     rp = core.load_replay(path)
+    if str(rp.get('engine', '')).startswith('sim'):
+        import subprocess, simgen
+        eng = rp['engine'].split('/')
+        exe, _ = simgen.build(eng[1], eng[2])
+        p = subprocess.run([exe, 'c01sim', '--seed', str(rp['seed']), '--tier', rp['tier'], '--only', str(rp['case_index'])], stdout=subprocess.PIPE, text=True)
+        print(p.stdout[-2500:])
+        return 1 if ('"verdict":"violated"' in p.stdout or p.returncode != 0) else 0
     exe = core.build_native()
     import subprocess
     cmd = [exe, "c01", "--seed", str(rp["seed"]), "--tier", rp["tier"], "--only", str(rp["case_index"])]
